@@ -67,6 +67,9 @@ def run(ctx):
                     seen_alive = True
                     if rd["idle_ticks"] > 1:
                         ctx.violation(f"C15/idle-cpu:{kind}", f"the reloader used {rd['idle_ticks']} CPU ticks in a 1 s idle window", sc)
+                if rd.get("ticks_after_sender_dropped") is not None and rd["ticks_after_sender_dropped"] > 2:
+                    ctx.violation(f"C15/spin-sender-dropped:{kind}", f"the reloader used {rd['ticks_after_sender_dropped']} CPU ticks in 0.6 s of idleness after the "
+                                  "source dropped its EventSender (the cache is alive, nothing changes)", sc)
                 if rd["cpu_ticks_after_drop"] > 1:
                     ctx.violation(f"C15/spin-after-drop:{kind}:{rd['shape']}",
                                   f"reloader threads burnt {rd['cpu_ticks_after_drop']} CPU ticks in 0.7 s after the cache was dropped ({rd['shape']})", sc)
